@@ -7,7 +7,7 @@ transport fault scheduled at one item index (sink error, stream error, end of st
 one-directional or two-directional stall), a virtual clock, and API calls pending at and started after
 the fault.  Checks on the real observations (`FAIL c06`):
   - after a fault both dispatchers have terminated with an error, within `timeout_A + timeout_B` of
-    virtual time after the fault;
+    virtual time after the fault, the one that is shown a sink / stream error or the end of the stream at once;
   - no API call is pending at the end (nothing hangs);
   - per port direction the messages received are, in order and byte for byte, the first messages sent;
   - without a fault nothing terminates, however long the connection is idle, and traffic still flows.
@@ -154,7 +154,11 @@ def FSim.finish (s : FSim) (line : Nat) (pendingEnd : String) (ra rb : String) :
       let ta := (s.timeouts.get? "A").getD 0
       let tb := (s.timeouts.get? "B").getD 0
       match s.runTime.get? x with
-      | some t => if t > tf + ta + tb + 10 then
+      | some t =>
+        -- the endpoint that is shown an error (not a silent stall) ends at once, not at its timeout
+        let s := if x == obs && (kind == "sink" || kind == "stream" || kind == "eof") && t > tf + 5 then
+            s.fail line s!"dispatcher {x} was shown the {kind} fault at t={tf} and ended only at t={t}: not as soon as it could observe the fault" else s
+        if t > tf + ta + tb + 10 then
           s.fail line s!"dispatcher {x} terminated {t - tf} ms after the fault, more than timeout_A + timeout_B = {ta + tb} ms" else s
       | none => s) s
 
